@@ -1,4 +1,4 @@
-import FiberModel.C03.Lemmas
+import FiberModel.C03.Greedy
 /-
 C03 — the induction behind `fill_match_complete` (helper file).
 -/
@@ -87,8 +87,8 @@ theorem rawSegsOf_param (t : Tok) (rest : Pat) (wc pc : Nat) (ht : t.isParam = t
     positions, `getMatch` succeeds and reports exactly `vs`. -/
 theorem getMatch_fill {chk : Constraint → Bytes → Bool} :
     (p : Pat) → (wc pc : Nat) → (segs : List Seg) → (ds vs : List Bytes) → (path : Bytes) →
-    CoreL (rawSegsOf p wc pc) segs → MetaOK segs → MetaOK2 segs → Delimited p = true → litsEscFree p →
-    cleanFillWith cmpOfConst p ds = true → greedyOnce cmpOfConst p ds = true → PathFor p ds vs path →
+    CoreL (rawSegsOf p wc pc) segs → MetaOK segs → MetaOK2 segs → MetaOK3 segs → Delimited p = true → litsEscFree p →
+    cleanFillWith cmpOfConst p ds = true → PathFor p ds vs path →
     getMatch chk segs (fill p ds) path false = some vs
   | [], _, _, segs, ds, vs, path, hc, _, _, _, _, _, _, hpf => by
     unfold rawSegsOf at hc
@@ -97,7 +97,7 @@ theorem getMatch_fill {chk : Constraint → Bytes → Bool} :
     subst hpf
     unfold getMatch fill
     simp
-  | .lit t :: rest, wc, pc, segs, ds, vs, path, hc, hm, hm2, hd, hesc, hcl, hgo, hpf => by
+  | .lit t :: rest, wc, pc, segs, ds, vs, path, hc, hm, hm2, hm3, hd, hesc, hcl, hpf => by
     unfold rawSegsOf at hc
     cases hc with
     | @cons a b as bs hab hrest =>
@@ -109,30 +109,29 @@ theorem getMatch_fill {chk : Constraint → Bytes → Bool} :
       unfold Delimited at hd
       simp only [Tok.isParam, Bool.false_eq_true, if_false, Bool.true_and] at hd
       unfold cleanFillWith at hcl
-      unfold greedyOnce at hgo
       unfold PathFor at hpf
-      exact getMatch_fill rest wc pc bs ds vs _ hrest hm.tail hm2.2.2 hd
-        (fun x hx => hesc x (List.mem_cons_of_mem _ hx)) hcl hgo hpf
-  | t@(.named n o) :: rest, wc, pc, segs, ds, vs, path, hc, hm, hm2, hd, hesc, hcl, hgo, hpf =>
-    getMatch_fill_param (by rfl) rest wc pc segs ds vs path hc hm hm2 hd hesc hcl hgo hpf
+      exact getMatch_fill rest wc pc bs ds vs _ hrest hm.tail hm2.2.2 hm3.2 hd
+        (fun x hx => hesc x (List.mem_cons_of_mem _ hx)) hcl hpf
+  | t@(.named n o) :: rest, wc, pc, segs, ds, vs, path, hc, hm, hm2, hm3, hd, hesc, hcl, hpf =>
+    getMatch_fill_param (by rfl) rest wc pc segs ds vs path hc hm hm2 hm3 hd hesc hcl hpf
       (fun wc' pc' bs ds' vs' path' => getMatch_fill rest wc' pc' bs ds' vs' path')
-  | .star :: rest, wc, pc, segs, ds, vs, path, hc, hm, hm2, hd, hesc, hcl, hgo, hpf =>
-    getMatch_fill_param (by rfl) rest wc pc segs ds vs path hc hm hm2 hd hesc hcl hgo hpf
+  | .star :: rest, wc, pc, segs, ds, vs, path, hc, hm, hm2, hm3, hd, hesc, hcl, hpf =>
+    getMatch_fill_param (by rfl) rest wc pc segs ds vs path hc hm hm2 hm3 hd hesc hcl hpf
       (fun wc' pc' bs ds' vs' path' => getMatch_fill rest wc' pc' bs ds' vs' path')
-  | .plus :: rest, wc, pc, segs, ds, vs, path, hc, hm, hm2, hd, hesc, hcl, hgo, hpf =>
-    getMatch_fill_param (by rfl) rest wc pc segs ds vs path hc hm hm2 hd hesc hcl hgo hpf
+  | .plus :: rest, wc, pc, segs, ds, vs, path, hc, hm, hm2, hm3, hd, hesc, hcl, hpf =>
+    getMatch_fill_param (by rfl) rest wc pc segs ds vs path hc hm hm2 hm3 hd hesc hcl hpf
       (fun wc' pc' bs ds' vs' path' => getMatch_fill rest wc' pc' bs ds' vs' path')
 where
   /-- the parameter step, given the statement for the rest of the pattern -/
   getMatch_fill_param {chk : Constraint → Bytes → Bool} {t : Tok} (ht : t.isParam = true)
       (rest : Pat) (wc pc : Nat) (segs : List Seg) (ds vs : List Bytes) (path : Bytes)
-      (hc : CoreL (rawSegsOf (t :: rest) wc pc) segs) (hm : MetaOK segs) (hm2 : MetaOK2 segs)
+      (hc : CoreL (rawSegsOf (t :: rest) wc pc) segs) (hm : MetaOK segs) (hm2 : MetaOK2 segs) (hm3 : MetaOK3 segs)
       (hd : Delimited (t :: rest) = true) (hesc : litsEscFree (t :: rest))
-      (hcl : cleanFillWith cmpOfConst (t :: rest) ds = true) (hgo : greedyOnce cmpOfConst (t :: rest) ds = true)
+      (hcl : cleanFillWith cmpOfConst (t :: rest) ds = true)
       (hpf : PathFor (t :: rest) ds vs path)
       (ih : ∀ (wc' pc' : Nat) (bs : List Seg) (ds' vs' : List Bytes) (path' : Bytes),
-          CoreL (rawSegsOf rest wc' pc') bs → MetaOK bs → MetaOK2 bs → Delimited rest = true → litsEscFree rest →
-          cleanFillWith cmpOfConst rest ds' = true → greedyOnce cmpOfConst rest ds' = true → PathFor rest ds' vs' path' →
+          CoreL (rawSegsOf rest wc' pc') bs → MetaOK bs → MetaOK2 bs → MetaOK3 bs → Delimited rest = true → litsEscFree rest →
+          cleanFillWith cmpOfConst rest ds' = true → PathFor rest ds' vs' path' →
           getMatch chk bs (fill rest ds') path' false = some vs') :
       getMatch chk segs (fill (t :: rest) ds) path false = some vs := by
     obtain ⟨a, wc', pc', hraw, hap, hag, hao, hacs⟩ := rawSegsOf_param t rest wc pc ht
@@ -160,11 +159,6 @@ where
               cleanFillWith cmpOfConst rest ds' = true := by
             cases t <;> simp [cleanFillWith, Tok.isParam, Bool.and_eq_true] at hcl ht ⊢ <;>
               exact ⟨hcl.1.1.1, hcl.1.1.2, hcl.1.2, hcl.2⟩
-          have hgo' : (match nextLit rest with
-               | none => true
-               | some l => !t.isGreedy || decide (count (d ++ fill rest ds') (cmpOfConst l) ≤ 1)) = true ∧
-              greedyOnce cmpOfConst rest ds' = true := by
-            cases t <;> simp [greedyOnce, Tok.isParam, Bool.and_eq_true] at hgo ht ⊢ <;> exact hgo
           have hd' : delimNext rest = true ∧ Delimited rest = true := by
             unfold Delimited at hd
             simp only [ht, if_true, Bool.and_eq_true] at hd
@@ -175,7 +169,8 @@ where
               removeEscapeChar (nextConstCmp bs) = nextConstCmp bs ∧
               (bs = [] → fill rest ds' = []) ∧
               (bs ≠ [] → indexOf (d ++ fill rest ds') (nextConstCmp bs) = some d.length) ∧
-              (bs ≠ [] → b.isGreedy = true → count (d ++ fill rest ds') (nextConstCmp bs) ≤ 1) := by
+              (bs ≠ [] → b.isGreedy = true → count (d ++ fill rest ds') (nextConstCmp bs) > 1 →
+                findGreedyParamLen (d ++ fill rest ds') (count (d ++ fill rest ds') (nextConstCmp bs)) b = d.length) := by
             cases rest with
             | nil =>
               unfold rawSegsOf at hrest
@@ -186,22 +181,35 @@ where
               | lit l =>
                 unfold rawSegsOf at hrest
                 cases hrest with
-                | @cons a2 b2 _ bs2 hab2 _ =>
+                | @cons a2 b2 _ bs2 hab2 hrest2 =>
                   have hb2p : b2.isParam = false := hab2.2.1
                   have hb2c : b2.const = l := hab2.1
                   have hncc : nextConstCmp (b2 :: bs2) = cmpOfConst l := by
                     unfold nextConstCmp; simp [hb2p, hb2c]
                   have hl : l.contains BSL = false :=
                     hesc (.lit l) (List.mem_cons_of_mem _ (List.mem_cons_self ..)) l rfl
-                  simp only [nextLit, Bool.and_eq_true, beq_iff_eq, Bool.or_eq_true, Bool.not_eq_true',
-                    decide_eq_true_eq] at hcl' hgo'
-                  refine ⟨by simp [nextNonGreedyParam, hb2p], ?_, fun h => (by cases h), fun _ => ?_, fun _ hg => ?_⟩
+                  simp only [nextLit, Bool.and_eq_true, beq_iff_eq, Bool.or_eq_true, Bool.not_eq_true'] at hcl'
+                  refine ⟨by simp [nextNonGreedyParam, hb2p], ?_, fun h => (by cases h), fun _ => ?_, fun _ hg _ => ?_⟩
                   · rw [hncc]; exact removeEscapeChar_id _ (cmpOfConst_escFree l hl)
                   · rw [hncc]; exact hcl'.2.2.1.1
-                  · rw [hncc]
-                    rcases hgo'.1 with h | h
-                    · rw [hbg, h] at hg; cases hg
-                    · exact h
+                  · -- stage (ii-b): the right-to-left loop on a clean fill
+                    have hlne : l ≠ [] := by
+                      intro hh; rw [hh] at hd'; simp [delimNext, startsWithDelim] at hd'
+                    have hocc : occ (d ++ fill (.lit l :: rest2) ds') (cmpOfConst l) =
+                        litOcc (cmpOfConst l) (.lit l :: rest2) := by
+                      rcases hcl'.2.2.1.2 with h | h
+                      · rw [hbg, h] at hg; cases hg
+                      · exact h
+                    obtain ⟨g1, g2⟩ := greedy_strip hlne hcl'.2.2.1.1 hocc
+                    have hcp : b.comparePart = cmpOfConst l := by
+                      rw [hm.2.1 hbp, hncc]; exact removeEscapeChar_id _ (cmpOfConst_escFree l hl)
+                    have hpc : b.partCount = litCount (cmpOfConst l) (.lit l :: rest2) := by
+                      rw [hm3.1 hbp (by rw [hcp]; exact cmpOfConst_ne_nil hlne), hcp,
+                        CoreL.partCountOf_eq _ (.cons hab2 hrest2), ← partCountOf_rawSegsOf _ (.lit l :: rest2) wc' pc']
+                      rfl
+                    rw [hncc, g1]
+                    unfold findGreedyParamLen
+                    rw [hcp, hpc, findGreedyLoop_eq_stripR, Nat.min_self, g2]
               | named _ _ => simp [delimNext] at hd'
               | star => simp [delimNext] at hd'
               | plus => simp [delimNext] at hd'
@@ -211,15 +219,15 @@ where
             have := hcl'.2.1
             simp only [Bool.or_eq_true, Bool.not_eq_true'] at this
             exact this
-          have hlen := findParamLen_fill hm hm2 hbp k1 k2 hslash k3 k4 k5
+          have hlen := findParamLen_fill_core hm hm2 hbp k1 k2 hslash k3 k4 k5
           have hreq : b.isOptional = true ∨ d ≠ [] := by
             rw [hbo]
             have := hcl'.1
             simp only [Bool.or_eq_true, Bool.not_eq_true', List.isEmpty_eq_false_iff] at this
             exact this
           rw [getMatch_param_intro hbp hlen hreq hbcs]
-          rw [ih wc' pc' bs ds' vs' _ hrest hm.tail hm2.2.2 hd'.2
-            (fun x hx => hesc x (List.mem_cons_of_mem _ hx)) hcl'.2.2.2 hgo'.2 hpf'.2]
+          rw [ih wc' pc' bs ds' vs' _ hrest hm.tail hm2.2.2 hm3.2 hd'.2
+            (fun x hx => hesc x (List.mem_cons_of_mem _ hx)) hcl'.2.2.2 hpf'.2]
           simp [hpf'.1]
 
 end C03
